@@ -37,7 +37,10 @@ ASSUMPTIONS = [
 BUDGET = {"quick": 1000, "thorough": 9000}
 SLOTS = ["property", "property", "additionalProperties", "patternProperties", "propertyNames", "dependencies"]
 WRAPPERS = ["items", "tuple", "additionalItems", "contains", "properties", "patternProperties",
-            "additionalProperties", "propertyNames", "dependencies", "anyOf", "oneOf", "allOf", "not"]
+            "additionalProperties", "propertyNames", "dependencies", "anyOf", "oneOf", "allOf", "not",
+            # the same keyword positions reached another way: on an untyped element, or next to a sibling keyword that
+            # makes them irrelevant for VALIDATION (a class standing there is still part of the module)
+            "additionalItems-single", "element-additionalItems", "element-items", "element-contains", "element-tuple"]
 STEP_BUDGET = 3_000_000
 
 
@@ -50,6 +53,16 @@ def wrap(kind, inner):
         return Array([String()], additionalItems=inner)
     if kind == "contains":
         return Array(Element(), contains=inner)
+    if kind == "additionalItems-single":
+        return Array(String(), additionalItems=inner)
+    if kind == "element-additionalItems":
+        return Element(additionalItems=inner)
+    if kind == "element-items":
+        return Element(items=inner)
+    if kind == "element-contains":
+        return Element(contains=inner)
+    if kind == "element-tuple":
+        return Element(items=[inner, String()], additionalItems=False)
     if kind == "properties":
         return Element(properties={"w": Property(inner)})
     if kind == "patternProperties":
